@@ -362,6 +362,7 @@ def run(ctx):
     cells(ctx, bits)
     correspondence(ctx, bits)
     chain_correspondence(ctx)
+    positional_rename_block(ctx, bits)
     oracles(ctx)
 
 
@@ -669,6 +670,59 @@ def correspondence(ctx, bits):
                            "program": c["text"], "inputs": c["inputs"], "quiet": c["quiet"],
                            "observed": {k: o.get(k) for k in ("class", "out", "stderr")}, "variant_bits": bits,
                            "coq_case": case_term(bits, c["prog"], c["quiet"], c["inputs"], o)})
+
+
+def positional_rename_block(ctx, bits):
+    """DETERMINISTIC (every seed): $[[i]] = "<name>" and $[[i]] = $[[j]] over a six-field record for ALL positions i (1..6, the
+    aliases -1..-6, out of range 0/7/-7) and all targets (the name of every field j, hence every distance |i-j| incl. >= 2, and
+    fresh names), against the Coq model (pos_put_name) AND against the direct statement of reference-dsl-variables.md: the
+    field at position i is renamed in place; a previously existing other field of that name disappears; out of range: no-op."""
+    names = ["a", "b", "c", "d", "e", "f"]
+    rec = [(k, str(10 * (n + 1))) for n, k in enumerate(names)]
+    cases = []
+    for i in list(range(1, 7)) + list(range(-6, 0)) + [0, 7, -7]:
+        for tgt in [("name", x) for x in names] + [("pos", j) for j in range(1, 7)] + [("pos", -2), ("name", "new"), ("name", "zz")]:
+            rhs = ("str", tgt[1]) if tgt[0] == "name" else ("posname", ("int", tgt[1]))
+            p = {"funcs": [], "begin": [], "main": [("assignposname", ("int", i), rhs)], "end": []}
+            n = len(names)
+            zi = i - 1 if 1 <= i <= n else (n + i if -n <= i <= -1 else None)
+            if tgt[0] == "name":
+                newname = tgt[1]
+            else:
+                j = tgt[1]
+                zj = j - 1 if 1 <= j <= n else (n + j if -n <= j <= -1 else None)
+                newname = names[zj]
+            if zi is None:
+                want = [(k, ("int", int(v))) for k, v in rec]
+            else:
+                want = []
+                for z, (k, v) in enumerate(rec):
+                    if z == zi:
+                        want.append((newname, ("int", int(v))))
+                    elif k != newname:
+                        want.append((k, ("int", int(v))))
+            cases.append(({"prog": p, "text": G.mlr_prog(p), "inputs": [rec], "quiet": False}, want))
+    with ctx.timed("impl"):
+        obs = run_all(ctx, [c for c, _ in cases], workers=4)
+    terms, reported = [], 0
+    for (c, want), o in zip(cases, obs):
+        ctx.count(("posrename", c["text"]))
+        good = o["class"] == "ok" and o.get("out") == [("r", want)]
+        if not good and reported < 3:
+            reported += 1
+            ctx.violation({"broken": "property oracle: positional name assignment renames in place", "class": "oracle-positional-rename-in-place",
+                           "program": "mlr put '%s'" % c["text"].strip(), "input": c["inputs"], "observed": {k: o.get(k) for k in ("class", "out", "stderr")},
+                           "expected": [("r", want)], "doc": "reference-dsl-variables.md, Positional field names: $[[i]] = s renames field i in place"})
+        if o["class"] in ("ok", "mlr_error"):
+            terms.append(case_term(bits, c["prog"], False, c["inputs"], o))
+    with ctx.timed("coq_cases"):
+        codes, err = coq_eval_codes(ctx, "C14posren", terms)
+    ctx.cov["positional_rename_block"] = {"programs": len(cases), "codes": {str(k): codes.count(k) for k in set(codes)}}
+    if err:
+        ctx.violation({"broken": "positional-rename evaluation", "detail": err[-1500:]}, found_input=False)
+    if any(code != 0 for code in codes) and reported == 0:
+        k = [i for i, code in enumerate(codes) if code != 0][0]
+        ctx.violation({"broken": "correspondence C14.Harness.classify (positional rename block)", "coq_case": terms[k][:3000]}, found_input=False)
 
 
 def chain_correspondence(ctx):
